@@ -533,7 +533,16 @@ func ruleG7c(c *Ctx) *RuleResult {
 		return r
 	}
 	n := 0
+	// the wait loop may sit in a closure of handleMediaPlaylist or in a helper it calls
+	var cands []*ssa.Function
+	for fn := range c.reach([]*ssa.Function{top}, func(f *ssa.Function) bool { return !InRootPkg(f) }) {
+		cands = append(cands, fn)
+	}
 	for _, fn := range withAnon(top) {
+		cands = appendUnique(cands, fn)
+	}
+	sort.Slice(cands, func(i, j int) bool { return cands[i].String() < cands[j].String() })
+	for _, fn := range cands {
 		hasWait := false
 		nl, nu := 0, 0
 		allInstrs(fn, func(in ssa.Instruction) {
@@ -566,6 +575,14 @@ func ruleG7c(c *Ctx) *RuleResult {
 			fx, fy := map[*types.Var]bool{}, map[*types.Var]bool{}
 			fieldsInSlice(bo.X, map[ssa.Value]bool{}, fx)
 			fieldsInSlice(bo.Y, map[ssa.Value]bool{}, fy)
+			// only fields of the muxer's own objects are state (the request may travel in a small struct)
+			for _, m := range []map[*types.Var]bool{fx, fy} {
+				for f := range m {
+					if o := c.fieldOwner(f); !strings.HasPrefix(o, "muxer") && !strings.HasPrefix(o, "Muxer") {
+						delete(m, f)
+					}
+				}
+			}
 			op := bo.Op
 			state := fy
 			if len(fx) > 0 && len(fy) == 0 {
